@@ -1052,7 +1052,7 @@ func (p *Parser) parseGroupBy(stmt *SelectStatement) error {
 			flushItem()
 			break
 		}
-		if tok.Type == TokenComma {
+		if tok.Type == TokenComma && parenLevel == 0 {
 			flushItem()
 			continue
 		}
